@@ -48,6 +48,111 @@ type World struct {
 	// without a type resolver resolves to the first possible type the library asks: the order in
 	// which it asks becomes visible in the response. For self-comparison checks only.
 	LooseTypeOf bool `json:"looseTypeOf,omitempty"`
+	// TypedLeaves: leaf values of the built-in scalars are handed over as the Go types a resolver may well use
+	// (int8..int64, uint16, uint64, float32, whole floats for Int, whole ints for Float, pointers to them) instead of
+	// always int / float64 / string / bool; which one is a function of the path, and the value they denote is the same.
+	TypedLeaves bool `json:"typedLeaves,omitempty"`
+}
+
+// retype hands a leaf value over as another Go type denoting the same value.
+func (w *World) retype(name string, v interface{}, hv uint32) interface{} {
+	if !w.TypedLeaves {
+		return v
+	}
+	k := (hv >> 9) % 9
+	switch x := v.(type) {
+	case int:
+		if name == "Float" {
+			return v
+		}
+		switch k {
+		case 1:
+			return int32(x)
+		case 2:
+			return int64(x)
+		case 3:
+			return int16(x)
+		case 4:
+			if x >= 0 {
+				return uint16(x)
+			}
+			return int(x)
+		case 5:
+			return float64(x)
+		case 6:
+			return &x
+		case 7:
+			return float32(x)
+		case 8:
+			if x >= 0 {
+				return uint64(x)
+			}
+			y := int64(x)
+			return &y
+		}
+	case float64:
+		switch k % 4 {
+		case 1:
+			return float32(x) // the pool holds multiples of 1/4: exact in float32
+		case 2:
+			return &x
+		case 3:
+			if x == float64(int(x)) {
+				return int(x)
+			}
+		}
+	case string:
+		if k%3 == 1 {
+			return &x
+		}
+	case bool:
+		if k%2 == 1 {
+			return &x
+		}
+	}
+	return v
+}
+
+// plainLeaf undoes retype: pointers are followed and numeric kinds widened, so that the reference's result coercion
+// judges the value that is denoted.
+func plainLeaf(raw interface{}) interface{} {
+	switch x := raw.(type) {
+	case *int:
+		if x != nil {
+			return *x
+		}
+	case *int64:
+		if x != nil {
+			return int(*x)
+		}
+	case *float64:
+		if x != nil {
+			return *x
+		}
+	case *string:
+		if x != nil {
+			return *x
+		}
+	case *bool:
+		if x != nil {
+			return *x
+		}
+	case int8:
+		return int(x)
+	case int16:
+		return int(x)
+	case int32:
+		return int(x)
+	case uint16:
+		return int(x)
+	case uint64:
+		if x <= math.MaxInt32 {
+			return int(x)
+		}
+	case float32:
+		return float64(x)
+	}
+	return raw
 }
 
 // ElemThunk marks a list element the resolver hands over as a deferred value
@@ -210,18 +315,18 @@ func (w *World) defValNN(t model.TypeRef, key string, args map[string]interface{
 	case model.KScalar:
 		switch t.Name {
 		case "Int":
-			return int(hv%2000) - 1000
+			return w.retype("Int", int(hv%2000)-1000, hv)
 		case "Float":
-			return float64(int(hv%4000)-2000) / 4
+			return w.retype("Float", float64(int(hv%4000)-2000)/4, hv)
 		case "String":
 			if top && len(args) > 0 {
-				return "A:" + model.Canon(args)
+				return w.retype("String", "A:"+model.Canon(args), hv)
 			}
-			return fmt.Sprintf("s%d", hv%1000)
+			return w.retype("String", fmt.Sprintf("s%d", hv%1000), hv)
 		case "Boolean":
-			return hv%2 == 0
+			return w.retype("Boolean", hv%2 == 0, hv)
 		case "ID":
-			return fmt.Sprintf("id%d", hv%1000)
+			return w.retype("ID", fmt.Sprintf("id%d", hv%1000), hv)
 		default:
 			return CustomParse(fmt.Sprintf("c%d", hv%1000)) // internal value of a custom scalar
 		}
@@ -297,8 +402,17 @@ func SerializeLeaf(s *model.Schema, typeName string, raw interface{}) (interface
 		return nil, false
 	}
 	switch typeName {
+	case "Int", "Float", "String", "ID", "Boolean":
+		raw = plainLeaf(raw)
+	}
+	switch typeName {
 	case "Int":
 		switch v := raw.(type) {
+		case float64:
+			// a whole number inside 32 bits handed over as a float (retype); fractions and NaN are never produced for Int
+			if v == math.Trunc(v) && v >= math.MinInt32 && v <= math.MaxInt32 {
+				return int(v), true
+			}
 		case int:
 			if v >= math.MinInt32 && v <= math.MaxInt32 {
 				return v, true
